@@ -49,16 +49,17 @@ def _compare(r, rep, label, stats):
 
 
 def run(tier, rep, files=(), parts=("chars", "pieces", "files")):
-    """files: [(name, text)] whole programs to lex both ways"""
+    """files: [(name, text)] whole programs to lex both ways.  Both tiers enumerate the same bounds (33^3 and 39^3 texts): one more
+    character or piece is 1.2 M / 2.3 M texts, whose predicted token streams no longer fit the driver; the thorough tier adds files instead."""
     build_harness()
     stats = {"texts": 0, "tokens": 0, "kinds": {}, "states": 0}
     quick = tier == "quick"
     if "chars" in parts:
-        r = _tlc("Lexer_chars.cfg", "chars", {"MaxChars": 3 if quick else 4}, workers=8 if quick else NCPU)
+        r = _tlc("Lexer_chars.cfg", "chars", {"MaxChars": 3}, workers=8 if quick else NCPU)
         stats["states"] += r.distinct
         _compare(r, rep, "chars", stats)
     if "pieces" in parts:
-        r = _tlc("Lexer_pieces.cfg", "pieces", {"MaxPieces": 3 if quick else 4}, workers=8 if quick else NCPU)
+        r = _tlc("Lexer_pieces.cfg", "pieces", {"MaxPieces": 3}, workers=8 if quick else NCPU)
         stats["states"] += r.distinct
         _compare(r, rep, "pieces", stats)
     if files and "files" in parts:
